@@ -606,6 +606,9 @@ def run(ck, build, only_c04=False):
         except Broken as e:
             ck.note("sensitivity clause not decided for %s (shape not recognised by the mode summaries): %s" % (f.name, str(e)[:160]))
             ns += 10
+    ck.rule("R-C03-ABSORB", "premise of 'modified associated data is rejected': the shared absorb function leaves a state that is an injective function of the bytes of every segment "
+            "(word, 1-, 2- and 3-byte tail; rank of the GF(2)-linear map the bytes enter by, or a concrete pair of inputs absorbed alike) - per path class and for every size 0..24 as straight paths")
+    aeadlib.absorb_injective_rule(ck, mod, label, "R-C03-ABSORB")
     # positive control
     fx = Module(build.fixture_facts(os.path.join(os.path.dirname(os.path.dirname(os.path.dirname(__file__))), "fixtures", "c03_bad.c")))
     sub = type(ck)("C03-fixture")
